@@ -10,7 +10,7 @@ theorem due_of_isDue (w : World) (h : isDue w = true) : Due w := by
 
 /-- the argument of every hook call: the complete module generated from the current source, and the module path -/
 def CallOk (w : World) (x : Content × P) : Prop :=
-  x.2 = .mod ∧ x.1.src = w.srcVer ∧ x.1.magic = magicNumber ∧ x.1.complete = true
+  x.2 = .mod ∧ x.1.src = w.srcVer ∧ x.1.magic = magicNumber ∧ x.1.complete = true ∧ x.1.file = w.fileId
 
 theorem phase2_calls (wr : Writer) (w1 : World) (p : Plan) (left : Option Nat) (acts : List Act) (n : Nat)
     (calls : List (Content × P)) :
@@ -33,28 +33,32 @@ theorem phase2_calls (wr : Writer) (w1 : World) (p : Plan) (left : Option Nat) (
 theorem hook_calls_ok (eff : Content → FS → FS) (w : World) (p : Plan) :
     ∀ x ∈ (construct (hookWriter eff) w p).calls, CallOk w x := by
   have hk : hookArgsOk = true := hookArgs_ok
-  have hw : ∀ (w' : World) (sz : Nat) fates left, w'.srcVer = w.srcVer →
+  have hw : ∀ (w' : World) (sz : Nat) fates left, w'.srcVer = w.srcVer → w'.fileId = w.fileId →
       ∀ x ∈ (hookWriter eff w' (newContent w' sz) fates left).calls, CallOk w x := by
-    intro w' sz fates left hv x hx
+    intro w' sz fates left hv hfi x hx
     simp [hookWriter, hk] at hx
     subst hx
-    simp [CallOk, newContent, hv]
+    simp [CallOk, newContent, hv, hfi]
   intro x hx
   unfold construct at hx
   dsimp only at hx
   split at hx
   · split at hx
-    · exact hw w p.size1 p.fates1 p.crash rfl x hx
+    · exact hw w p.size1 p.fates1 p.crash rfl rfl x hx
     · rcases phase2_calls (hookWriter eff) _ p _ _ 1 _ with h | ⟨pyc1, h⟩
-      · rw [h] at hx; exact hw w p.size1 p.fates1 p.crash rfl x hx
+      · rw [h] at hx; exact hw w p.size1 p.fates1 p.crash rfl rfl x hx
       · rw [h] at hx
         rcases List.mem_append.1 hx with hx | hx
-        · exact hw w p.size1 p.fates1 p.crash rfl x hx
-        · exact hw _ p.size2 p.fates2 _ (by simp [afterGroup]) x hx
+        · exact hw w p.size1 p.fates1 p.crash rfl rfl x hx
+        · exact hw _ p.size2 p.fates2 _ (by simp [afterGroup]) (by simp [afterGroup]) x hx
   · rcases phase2_calls (hookWriter eff) w p p.crash [] 0 [] with h | ⟨pyc1, h⟩
     · rw [h] at hx; simp at hx
     · rw [h] at hx
-      exact hw { w with pyc := pyc1 } p.size2 p.fates2 _ rfl x (by simpa using hx)
+      exact hw { w with pyc := pyc1 } p.size2 p.fates2 _ rfl rfl x (by simpa using hx)
+
+theorem needsRegen_iff (w : World) (c : Content) :
+    needsRegen w c = true ↔ (c.magic ≠ magicNumber ∨ c.file ≠ w.fileId) := by
+  simp [needsRegen, magicRecheck_on, fileRecheck_on]
 
 /-- the hook is called iff a (re)write is due -/
 theorem hook_called_iff (eff : Content → FS → FS) (w : World) (p : Plan) (hgood : Good w.fs)
@@ -82,37 +86,47 @@ theorem hook_called_iff (eff : Content → FS → FS) (w : World) (p : Plan) (hg
       obtain ⟨pyc1, hl, _⟩ := loadMod_fresh w f hf (hgood f hf) (fun m s c hp h1 h2 => hcoh m s c f hp hf h1 h2)
       have hc : construct (hookWriter eff) w p = phase2 (hookWriter eff) w p p.crash [] 0 [] := by
         unfold construct; simp [hd']
-      by_cases hm : f.content.magic = magicNumber
-      · rw [hc, phase2_reuse _ _ _ _ _ _ _ _ _ hl hm]
+      by_cases hm : f.content.magic = magicNumber ∧ f.content.file = w.fileId
+      · rw [hc, phase2_reuse _ _ _ _ _ _ _ _ _ hl hm.1 hm.2]
         constructor
         · intro h; exact absurd rfl h
         · intro h
           rcases h with h | ⟨f', hf', h⟩
           · rw [hf] at h; cases h
           · rw [hf] at hf'; cases hf'
-            rcases h with h | h
+            rcases h with h | h | h
             · exact absurd (Or.inr ⟨f, hf, h⟩) hnd
-            · exact absurd hm h
-      · refine ⟨fun _ => Or.inr ⟨f, hf, Or.inr hm⟩, fun _ => ?_⟩
+            · exact absurd hm.1 h
+            · exact absurd hm.2 h
+      · have hm' : f.content.magic ≠ magicNumber ∨ f.content.file ≠ w.fileId := by
+          by_cases h1 : f.content.magic = magicNumber
+          · exact Or.inr (fun h2 => hm ⟨h1, h2⟩)
+          · exact Or.inl h1
+        refine ⟨fun _ => Or.inr ⟨f, hf, Or.inr hm'⟩, fun _ => ?_⟩
         rw [hc]
         unfold phase2
-        simp only [hl, magicRecheck_on, Bool.true_and, bne_iff_ne, ne_eq, hm, not_false_eq_true, if_true]
+        have hr := (needsRegen_iff w f.content).2 hm'
+        simp only [hl, hr, if_true]
         have hst : ∀ w' c fates l, (hookWriter eff w' c fates l).status = .done := fun _ _ _ _ => rfl
-        simp only [hst, not_true_eq_false, if_false]
+        simp only [hst, ne_eq, not_true_eq_false, if_false]
         split <;> simp [hookWriter, hk]
 
 /-- a hook that installs what it is given is called exactly once when a write is due (no bytecode cache) -/
 theorem hook_called_once (eff : Content → FS → FS) (w : World) (p : Plan) (hgood : Good w.fs)
-    (hpyc : w.pyc = none)
+    (hcoh : PycCoherent w) (hpyc : dropsBytecode = true ∨ w.pyc = none)
     (hinst : ∀ c fs, ∃ t, (eff c fs) .mod = some ⟨c, t⟩) (hdue : Due w) :
     (construct (hookWriter eff) w p).calls.length = 1 := by
   have hk : hookArgsOk = true := hookArgs_ok
-  have hcoh : PycCoherent w := by intro m s c f h; rw [hpyc] at h; cases h
   by_cases hd : isDue w = true
   · obtain ⟨t, ht⟩ := hinst (newContent w p.size1) w.fs
     have hload := loadMod_fresh (afterGroup w (hookWriter eff w (newContent w p.size1) p.fates1 p.crash))
       ⟨newContent w p.size1, t⟩ (by simpa [afterGroup, hookWriter] using ht) (by simp [newContent])
-      (by intro m s c h; simp [afterGroup, hpyc] at h)
+      (by
+        intro m s c h
+        obtain ⟨hnd, hp⟩ := afterGroup_pyc h
+        rcases hpyc with hfix | hnone
+        · rw [hfix] at hnd; cases hnd
+        · rw [hnone] at hp; cases hp)
     obtain ⟨pyc1, hl, _⟩ := hload
     have hc : construct (hookWriter eff) w p =
         phase2 (hookWriter eff) (afterGroup w (hookWriter eff w (newContent w p.size1) p.fates1 p.crash)) p
@@ -122,7 +136,7 @@ theorem hook_called_once (eff : Content → FS → FS) (w : World) (p : Plan) (h
       have hst : (hookWriter eff w (newContent w p.size1) p.fates1 p.crash).status = .done := rfl
       simp only [hst, ne_eq, not_true_eq_false, if_false]
       simp [hookWriter, hk]
-    rw [hc, phase2_reuse _ _ _ _ _ _ _ _ _ hl (by simp [newContent])]
+    rw [hc, phase2_reuse _ _ _ _ _ _ _ _ _ hl (by simp [newContent]) (by simp [newContent, afterGroup])]
     rfl
   · have hd' : isDue w = false := by simpa using hd
     have hnd : ¬ (w.fs .mod = none ∨ ∃ f, w.fs .mod = some f ∧ f.mtime < w.srcMtime) :=
@@ -133,7 +147,7 @@ theorem hook_called_once (eff : Content → FS → FS) (w : World) (p : Plan) (h
       obtain ⟨pyc1, hl, _⟩ := loadMod_fresh w f hf (hgood f hf) (fun m s c hp h1 h2 => hcoh m s c f hp hf h1 h2)
       have hc : construct (hookWriter eff) w p = phase2 (hookWriter eff) w p p.crash [] 0 [] := by
         unfold construct; simp [hd']
-      have hm : f.content.magic ≠ magicNumber := by
+      have hm : f.content.magic ≠ magicNumber ∨ f.content.file ≠ w.fileId := by
         rcases hdue with h | ⟨f', hf', h⟩
         · rw [hf] at h; cases h
         · rw [hf] at hf'; cases hf'
@@ -142,9 +156,10 @@ theorem hook_called_once (eff : Content → FS → FS) (w : World) (p : Plan) (h
           · exact h
       rw [hc]
       unfold phase2
-      simp only [hl, magicRecheck_on, Bool.true_and, bne_iff_ne, ne_eq, hm, not_false_eq_true, if_true]
+      have hr := (needsRegen_iff w f.content).2 hm
+      simp only [hl, hr, if_true]
       have hst : ∀ w' c fates l, (hookWriter eff w' c fates l).status = .done := fun _ _ _ _ => rfl
-      simp only [hst, not_true_eq_false, if_false]
+      simp only [hst, ne_eq, not_true_eq_false, if_false]
       split <;> simp [hookWriter, hk]
 
 /-! ### worlds without a bytecode cache (no `__pycache__` entry, `sys.dont_write_bytecode`) -/
@@ -254,7 +269,7 @@ theorem verifyDirLoop_spec : ∀ (fuel tries failures : Nat), tries + fuel = ver
 replaced by one of another generator version, deleted -/
 def exHist : List HOp :=
   [.modifySrc 5, .setClock 7, .construct {}, .modifySrc 3, .construct {}, .modifySrc 7, .construct {},
-   .setClock 9, .replaceMod ⟨2, magicNumber + 1, true, 99, 4⟩ 8, .construct {}, .deleteMod,
+   .setClock 9, .replaceMod ⟨2, magicNumber + 1, true, 99, 4, 0⟩ 8, .construct {}, .deleteMod,
    .construct { fates1 := [.ok, .raise] }, .construct { crash := some 2 }, .modifySrc 12]
 
 theorem exHist_ok : HistOk exHist := by
